@@ -259,3 +259,87 @@ def fold_agree(rep, prog, rule="FOLD-AGREE"):
             rep.violation(rule, "order", "Ord for ZoneInfoName compares fields %s, expected `lower`" % sorted(fields), o[0].loc())
     else:
         rep.anchor_missing("Ord for ZoneInfoName")
+
+
+def handover(rep, prog, rule="HANDOVER"):
+    """where the recorded TZif transitions end and the POSIX rule of the footer takes over"""
+    from .guards import guards, strip_not
+    rep.rule(rule, "Tzif::next_transition consults the footer's POSIX rule only when the search index lies past the last recorded "
+                   "transition (index >= len / == len, not len - 1: the last recorded transition must itself be yielded), and the "
+                   "index of the transition it yields always comes from the binary search (a constant `len - 1` fallback yields the "
+                   "last transition again and again, so following() never ends on data without a footer); Tzif::previous_transition "
+                   "returns the POSIX rule's answer only after comparing it with the last recorded transition (the rule describes "
+                   "what happens after that transition and may name an earlier instant)")
+    base = "jiff::tz::tzif::Tzif::<STR, ABBREV, TYPES, TIMESTAMPS, STARTS, ENDS, INFOS>::"
+    f = prog.fns.get(base + "next_transition")
+    g = prog.fns.get(base + "previous_transition")
+    if f is None or g is None:
+        rep.anchor_missing("tz::tzif::Tzif::{next,previous}_transition")
+        return
+
+    def has_len_minus_one(t):
+        return any(isinstance(x, tuple) and x and x[0] == "bin" and x[1] in ("Sub", "SubWithOverflow") and len(x) == 4
+                   and any(is_call(y, "::len") for y in walk(x[2])) and x[3] == ("const", 1) for x in walk(t))
+
+    # --- next_transition
+    T = Terms(f)
+    cfg = mir.CFG(f)
+    posix_calls = [(bi, t) for bi, t in mir.iter_calls(f) if t.get("path", "").endswith("::next_transition") and "posix" in t.get("path", "").lower()]
+    if not posix_calls:
+        rep.violation(rule, "next: delegation", "anchor missing: next_transition no longer consults the POSIX rule", f.loc())
+    for bi, t in posix_calls:
+        bound = None
+        for (c, truth, _sb) in guards(f, cfg, T, bi):
+            c2, tr2 = strip_not(c, truth)
+            if c2[0] == "bin" and c2[1] in ("Ge", "Gt", "Eq", "Lt", "Le", "Ne") and any(is_call(y, "::len") for y in walk(c2)):
+                bound = c2
+        key = "next: POSIX rule only past the last recorded transition"
+        loc = "%s:%s" % (t["span"]["file"], t["span"]["line"])
+        if bound is None:
+            rep.violation(rule, key, "the call of the POSIX rule is not guarded by a comparison of the search index with the number of transitions", loc)
+        elif has_len_minus_one(bound):
+            rep.violation(rule, key, "the POSIX rule is consulted when index >= len - 1, i.e. also when the last recorded transition is still "
+                          "ahead of the instant: that transition is never yielded (and a footer without DST rule ends the iteration early)", loc)
+        else:
+            rep.ok(rule, key, how=show(bound, maxd=3)[:120], loc=loc)
+    idx_alts = []
+    for bi, b in enumerate(f.blocks):
+        t = b["term"]
+        if t["t"] == "assert" and t["kind"] == "BoundsCheck" and any(is_call(y, "::timestamps") for y in walk(T.operand(t["ops"][0], pos=(bi, "term")))) or \
+                (t["t"] == "assert" and t["kind"] == "BoundsCheck"):
+            idx_alts += list(alts(T.operand(t["ops"][1], pos=(bi, "term"))))
+    key = "next: yielded index comes from the search"
+    if not idx_alts:
+        rep.violation(rule, key, "anchor missing: no indexing of the transition table found", f.loc())
+    elif any(has_len_minus_one(a) and not any(is_call(y, "binary_search") for y in walk(a)) for a in idx_alts):
+        rep.violation(rule, key, "one alternative of the yielded index is the constant `len - 1`, independent of the search: without a "
+                      "footer the last transition is yielded for every later instant and following() never terminates", f.loc())
+    else:
+        rep.ok(rule, key, how="%d alternative(s), all from binary_search" % len(idx_alts), loc=f.loc())
+    # --- previous_transition
+    T = Terms(g)
+    cfg = mir.CFG(g)
+    key = "previous: POSIX answer compared with the last recorded transition"
+    rets = []
+    for bi, b in enumerate(g.blocks):
+        for si, s in enumerate(b["st"]):
+            if s["s"] == "=" and s["lhs"]["l"] == 0 and s["rv"]["k"] == "agg" and s["rv"].get("variant") == "Some":
+                tm = T.operand(s["rv"]["ops"][0], pos=(bi, si))
+                if any(is_call(y, "::previous_transition") for y in walk(tm)):
+                    rets.append((bi, s.get("ln")))
+    if not rets:
+        rep.violation(rule, key, "anchor missing: previous_transition never returns the POSIX rule's transition", g.loc())
+    for bi, ln in rets:
+        ok = False
+        for (c, truth, _sb) in guards(g, cfg, T, bi):
+            c2, _tr2 = strip_not(c, truth)
+            w = list(walk(c2))
+            cmp_ = (c2[0] == "bin" and c2[1] in ("Gt", "Ge", "Lt", "Le")) or (c2[0] == "call" and c2[1].rsplit("::", 1)[-1] in ("gt", "ge", "lt", "le"))
+            if cmp_ and any(is_call(y, "::previous_transition") for y in w) and any(is_call(y, "::timestamps") for y in w):
+                ok = True
+        loc = "%s:%s" % (g.file, ln)
+        if ok:
+            rep.ok(rule, key, how="returned only when later than the last recorded transition", loc=loc)
+        else:
+            rep.violation(rule, key, "the transition computed from the POSIX rule is returned without comparing it with the last recorded "
+                          "transition: a rule whose previous transition falls before it skips recorded transitions", loc)
